@@ -728,7 +728,7 @@ end TF.C07
 
 The regenerated loops (`product[i + j] = product[i + j] + self[i] * other[j]` over `0..=degree_lhs × 0..=degree_rhs`;
 `sq[2i] += cᵢ²`, `sq[i + j] += (two·cᵢ)·cⱼ` for `j > i` over `coefficients()`) start from a zero vector and add row after row;
-the hand models `mulRows` / `squareRows` add row `i` to the already summed later rows.  The two agree **iff-style only under laws
+the hand models `mulRows` / `squareRows` add row `i` to the already summed later rows.  The two agree **only under laws
 of `add`**: `AddLaws F` = `add` is associative and `zero` is a left and a right unit — exactly what the proof uses (each of the
 three is needed already for operands of length ≤ 3; commutativity is not needed, `AddLaws.of_comm` gives the right unit from the
 left one for a commutative `add`; no law of `mul`, `two = one + one` is the same term on both sides).  Every Mathlib field
